@@ -85,4 +85,22 @@ REG = {
          "queried inside the tabulated domain only (the 1% extrapolation zone is not covered for extrema). Prefactors in recorded "
          "histories are +-2^k; subnormal results are exempt from the exact-scaling clause.",
     technique="exact-rational TLA+ model of the piecewise antiderivative and extrema with a prefactor state machine (TLC) + replay + trace validation of recorded histories"),
+ "C03": dict(
+    engine="spec/Simpson.tla, MC_Simpson.tla, MC_SimpsonPanel.tla, Trace_Simpson.tla; harness/c03.cpp",
+    design_ref="DESIGN.md §4.3",
+    text="Simpson.tla models the recursion as a machine over dyadic frames; TLC explores every adaptive bisection tree for depth limits "
+         "0..3 (0..4 thorough) with the environment choosing accept/recurse and proves the evaluation-count bound 2^(depth+2)+1, "
+         "containment of all abscissae and closure of the tree. MC_SimpsonPanel proves in exact rationals that the accepted value "
+         "S2+(S2-S)/15 of a panel IS the exact integral of every monomial of degree <=5 (and is not for degree 6) and that the "
+         "estimate handed to a child is that child's own Simpson estimate, hence exactness on quintics for any epsilon and depth. "
+         "Recorded executions of the real Integrate (wrapped integrand; polynomials, estimator-regular families with closed-form "
+         "integrals, arbitrary integrands; both orientations, equal limits, +-epsilon, depths 0..25) are validated against "
+         "Trace_Simpson: every pair of evaluations must be the quarter points of an enabled frame, counts/closure/containment hold, "
+         "swapping limits negates bit-exactly, the sign of epsilon is irrelevant bit-exactly, quintics are exact to rounding and "
+         "regular integrands are within 4 eps when no non-convergence warning was printed.",
+    note="The 4-epsilon clause is decided on generated families with planted closed-form integrals (exp, cosh, (x+s)^-k, (x+s)^p) and "
+         "read as conditional on the absence of the library's non-convergence warning. Rounding allowance: 64(depth+4) eps (b-a) max|f| "
+         "+ 64 eps max|x| max|f|. Executions needing more than 3e6 evaluations are abandoned (counted in the evidence); executions with "
+         "more than 4000 evaluations are validated without their individual Panel events.",
+    technique="TLA+ frame machine of the adaptive recursion (TLC exhaustive over bisection trees) + exact-rational panel identity + trace validation of recorded executions"),
 }
